@@ -1300,6 +1300,7 @@ func interceptorScenario(c *vf.Case) {
 			break
 		}
 		s := streams[r.Intn(len(streams))]
+		malformed := false
 		withExt := s.extID != 0 && !r.Chance(0.05)
 		if withExt && m.wouldTie(seq) {
 			seq++
@@ -1332,6 +1333,9 @@ func interceptorScenario(c *vf.Case) {
 				id = 5
 			}
 			ext, _ := (&rtp.TransportCCExtension{TransportSequence: seq}).Marshal()
+			if malformed = withExt && r.Chance(0.03); malformed {
+				ext = ext[:1] // an element too short to hold a transport-wide number: nothing to record
+			}
 			if err := h.SetExtension(id, ext); err != nil {
 				c.Inconclusive("SetExtension(%d): %v", id, err)
 				ok = false
@@ -1356,6 +1360,12 @@ func interceptorScenario(c *vf.Case) {
 			attr = interceptor.Attributes{}
 		}
 		nRead, _, err := s.reader.Read(buf, attr)
+		if malformed {
+			// rejected with an error or passed through, but never recorded
+			c.Add("packets_with_malformed_transport_cc_element", 1)
+			ignored++
+			continue
+		}
 		if err != nil || nRead != len(raw) {
 			c.Inconclusive("bound reader returned n=%d err=%v for a %d byte packet", nRead, err, len(raw))
 			ok = false
